@@ -50,10 +50,24 @@ def oracle(case, iline):
     return bad
 
 
-def model_input(case, iline):
-    """The model driver reads the case header and the recorded events."""
+def model_input(case, iline, repaired=0):
+    """The model driver reads the case header (+ rep=<probe result>) and the recorded events."""
     ev = iline.partition(" || ")[0]
-    return case.partition("|")[0].strip() + " | " + ev
+    return case.partition("|")[0].strip() + " rep=%d | " % repaired + ev
+
+
+def probe_repaired(impl):
+    """Behavioural probe of the compiled tree: does Block::insert accept a peer whose only transfer on the block is the
+    finished leftover of a hash-failed attempt? -> 1 / 0 (harness/c01.cc --probe)."""
+    import os, subprocess
+    env = dict(os.environ)
+    env.setdefault("ASAN_OPTIONS", "detect_leaks=0")
+    try:
+        out = subprocess.run([impl, "--probe"], stdout=subprocess.PIPE, stderr=subprocess.PIPE, timeout=60, env=env).stdout.decode()
+        m = re.search(r"repaired=(-?\d+)", out)
+        return int(m.group(1)) if m else -1
+    except Exception:
+        return -1
 
 
 def run(rep, tier, seed, replay):
@@ -78,6 +92,9 @@ def run(rep, tier, seed, replay):
                        "property oracle evaluated in harness/c01.cc on the implementation after every stimulus and inside the "
                        "chunk-done slot; classification in props/c01.py"]))
     impl = ltv.build_harness("c01", ["c01.cc", "common/session.cc"])
+    repaired = probe_repaired(impl)
+    if repaired < 0:
+        rep.violation("the Block::insert probe of the compiled tree could not be evaluated (harness --probe)", theorem="probe C01", found_input=False)
     model = None
     try:
         model = ltv.build_model("C01")
@@ -93,7 +110,7 @@ def run(rep, tier, seed, replay):
     traced = [i for i in range(len(cases)) if " || " in io[i] and not io[i].startswith("ERR")]
     mo = {}
     if model:
-        res = ltv.run_sharded(model, [model_input(cases[i], io[i]) for i in traced], timeout=1500)
+        res = ltv.run_sharded(model, [model_input(cases[i], io[i], max(repaired, 0)) for i in traced], timeout=1500)
         for k, i in enumerate(traced):
             mo[i] = res[k] if k < len(res) else "MISSING"
     nontrivial, samples = set(), []
@@ -143,7 +160,7 @@ def run(rep, tier, seed, replay):
             coq["discharged"], coq["obligations"], "; ".join(coq["lint"] + coq["bad_axioms"]), coq["log"][-1500:]),
             theorem="coq/C01/Properties.v", found_input=False)
     stats = dict(stats)
-    stats.update(totals=tot, traces_checked_by_model=len(mo), traces_rejected=rejected)
+    stats.update(block_insert_ignores_stale_leftovers=repaired, totals=tot, traces_checked_by_model=len(mo), traces_rejected=rejected)
     rep.cov.update(evaluations=len(cases), distinct_nontrivial=len(nontrivial),
                    rule="cases = corpus + hand list (dissimilar / leader change / leader disconnect / all-corrupt / max_failed / "
                         "malformed / unrequested / choke / out of order / crafted data whose SHA-1 agrees with the recorded one up to an early NUL byte / "
